@@ -57,6 +57,9 @@ CLAIMED = {
  "C19": dict(cat="proof", tech="Coq interleaving model: every schedule of race-free thread programs equals the sequential composition (induction over the interleaving relation, commutation of compatible actions); distinct multi-indices of the shared view through copies / sub-views are distinct cells (C01 injectivity + C04 aliasing); clang-AST purity audit of the headers; real threads under ThreadSanitizer compared with the model",
    text="Theorems C19_interleaving_is_sequential / C19_schedule_independent (all interleavings, any number of threads and actions), C19_final_cell (each cell holds its only writer's last value, others unchanged), C19_thread_reads_as_alone, C19_disjoint_indices_race_free and C19_shared_view (threads accessing pairwise distinct elements of the shared view through it, copies or sub-views of any depth compile to race-free cell programs), C19_pure_actions (observers / copies / sub-view creation have no effect). Tie to the code: (i) purity audit on every run - clang -ast-dump=json of mdspan.hpp + mdarray.hpp in C++14/17/20/2b: no non-const static-storage variable, thread_local, mutable member or const_cast in namespace Kokkos, plus a token scan of all headers; (ii) generated thread programs (2-8 threads; writes/reads through the shared const mdspan, private copies and sub-views created inside the threads; observers; all access forms; default and proxy accessor; 5 layouts) run with g++/clang++ ThreadSanitizer and plain builds; final buffer, per-thread read logs and observer results compared with the model's sequential composition; the model also runs the verified race-freedom checker race_freeb on every generated case.",
    ref="4/C19", note=NOTE_COMMON + " Partial in one respect: what the C++ memory model calls a data race is delegated to ThreadSanitizer on the executed schedules."),
+ "C18": dict(cat="proof", tech="Coq object-layout function (Itanium ABI allocation of data members with [[no_unique_address]]) over transcribed class models; closed-form size theorems for all index types / ranks / patterns; sizeof / is_empty / is_trivially_copyable correspondence on generated instantiations with g++ and clang++, attribute and emulation builds",
+   text="Theorems C18_extents (sizeof = rank_dynamic x sizeof(index_type), empty class when none), C18_left_right_add_nothing, C18_stride_adds_rank, C18_padded_at_most_one, C18_mdspan (handle + data of the non-empty mapping and accessor, for any mapping/accessor shapes), C18_mdspan_pointer_sized, C18_mdspan_left_right_stride, trivially-copyable flags. Correspondence: for generated instantiations (8 index types x 5 layouts x ranks 0..6 x static/dynamic/mixed/zero patterns x padding values x 4 accessor kinds) sizeof and is_empty of extents, mapping and mdspan are compared with the layout function in the attribute builds, is_trivially_copyable in all builds including the forced emulation.",
+   ref="4/C18", note=NOTE_COMMON + " Partial in one respect: the ABI model is validated by the comparison with the two compilers, not derived from the ABI document."),
 }
 PENDING_REASON = "check under construction in this session (Coq theorems and correspondence driver not yet committed); not claimed until both exist"
 
